@@ -1,11 +1,14 @@
 //! Harness binary `h_mdns <PROP> --seed S --tier T [--count N] [--replay F]`.
 //! One module per property (`cNN.rs`, `pub fn run(args: &hcore::Args, out: &mut hcore::Out)`).
 
+mod c55;
+
 fn main() {
     let args = hcore::Args::parse();
     hcore::quiet_panics();
     let mut out = hcore::Out::new();
     match args.prop.as_str() {
+        "C55" => c55::run(&args, &mut out),
         p => {
             let _ = &mut out;
             eprintln!("h_mdns: unknown property {p}");
